@@ -113,7 +113,12 @@ def lenient(form: str, target: bytes) -> List[Tuple[str, int]]:
         t = t.split('://', 1)[1]
     auth = re.split(r'[/?#]', t, 1)[0]
     out: List[Tuple[str, int]] = []
-    for hp in {auth, auth.split('@', 1)[-1], auth.rsplit('@', 1)[-1]}:
+    hps = {auth, auth.split('@', 1)[-1], auth.rsplit('@', 1)[-1]}
+    if form == 'connect':
+        # an authority-form target has no path: a reading that takes everything before an '@' for userinfo, '/' and '?' included,
+        # is as good as one that cuts at them
+        hps |= {t, t.split('@', 1)[-1], t.rsplit('@', 1)[-1]}
+    for hp in sorted(hps):
         m = re.match(r'^\[(.*)\](?::([0-9]*))?$', hp)
         if m:
             host, ptxt = m.group(1), m.group(2) or ''
@@ -126,6 +131,11 @@ def lenient(form: str, target: bytes) -> List[Tuple[str, int]]:
         prt = int(ptxt) if ptxt else (443 if form == 'connect' else 80)
         if host and prt < 65536:
             out.append((host.lower(), prt))
+            if ':' in host and not m:
+                # an unbracketed literal with its last group taken for the port ('0::1' -> '0::' port 1): what is left of the
+                # literal may or may not keep the colon that preceded the port
+                out.append((host.lower() + ':', prt))
+                out.append((host.lower().rstrip(':'), prt))
     return out
 
 
